@@ -1,11 +1,14 @@
 /-
 C07, writing direction: the document `toDict t` of a well-formed triangle, read by the independent
-plain reader (`Spec.C07.plainRead`), is the triangle itself — `toDict_shape`. Values (`readVal ∘
+plain reader with STRICT ISO dates (`Spec.C07.plainReadStrict`), is the triangle itself —
+`toDict_shape_strict`; the same for the lenient reader (`toDict_shape`) follows because the strict
+reader is a restriction of it. Values (`readVal ∘
 valToJ`), cells (ISO dates), slices (metadata entries once, in `as_dict` order), and the grouping:
 a sorted triangle's `groupBy` by metadata gives its contiguous runs.
 -/
 import Bermuda.Lemmas.JsonIODecode
 import Bermuda.Lemmas.JsonIOGroup
+import Bermuda.Lemmas.JsonIOStrict
 namespace Bermuda.JsonIO
 open Bermuda Bermuda.Spec.C07 Std Bermuda.GroupL
 
@@ -82,23 +85,23 @@ theorem keys_valToJ (vals : Dict Val) :
     (vals.map fun kv => (kv.1, valToJ kv.2)).map (·.1) = Dict.keys vals := by
   simp [Dict.keys, List.map_map, Function.comp_def]
 
-theorem readCell_cellToDict (c : JCell) (h : wfCell c = true) :
-    readCell (cellToDict c) = some { typed c with md := {} } := by
+theorem readCellS_cellToDict (c : JCell) (h : wfCell c = true) :
+    readCellS (cellToDict c) = some { typed c with md := {} } := by
   simp only [wfCell, Bool.and_eq_true] at h
   obtain ⟨⟨⟨⟨⟨⟨⟨⟨hps, hpe⟩, hev⟩, hprev⟩, hok⟩, htf⟩, hnd⟩, hvals⟩, _⟩ := h
-  have dps := parseIso_dateIso c.ps hps
-  have dpe := parseIso_dateIso c.pe hpe
-  have dev := parseIso_dateIso c.ev hev
-  have dprev : ∀ p, c.prev = some p → parseIso (dateIso p) = .ok p := by
-    intro p hp; rw [hp] at hprev; exact parseIso_dateIso p hprev
+  have dps := strictIso_dateIso c.ps hps
+  have dpe := strictIso_dateIso c.pe hpe
+  have dev := strictIso_dateIso c.ev hev
+  have dprev : ∀ p, c.prev = some p → strictIso (dateIso p) = some p := by
+    intro p hp; rw [hp] at hprev; exact strictIso_dateIso p hprev
   have hv : readValues [("values", JVal.obj (c.values.map fun kv => (kv.1, valToJ kv.2)))] = some c.values := by
     simp only [readValues, jLookup, List.find?_cons, beq_self_eq_true, Option.map_some, keys_valToJ, hnd, htf,
       Bool.and_self, if_true]
     exact mapM_readVal_valToJ c.values hvals
   obtain ⟨kind, ps, pe, ev, prev, values, md⟩ := c
   cases kind <;> cases prev <;>
-    simp_all [JCell.datesOk, Cell.datesOk, cellToDict, readCell, nodupKeys, cellKeys, readDate, jLookup,
-      readPrev, readValues, mkObservation, typed, typedKind, keys_valToJ]
+    simp_all [JCell.datesOk, Cell.datesOk, cellToDict, readCellS, nodupKeys, cellKeys, readDateS, jLookup,
+      readPrevS, readValues, mkObservation, typed, typedKind, keys_valToJ]
 
 
 /-! ### writing then reading plainly: one slice -/
@@ -254,18 +257,18 @@ theorem readDetails_slice (m : JMeta) (x : JVal) (h1 : wfDetails m.details = tru
   ⟨readDetails_of_lookup _ _ _ (lookup_details m x).1 h1,
    readDetails_of_lookup _ _ _ (lookup_details m x).2.1 h2⟩
 
-theorem mapM_readCell_cellToDict : ∀ g : List JCell, (∀ c ∈ g, wfCell c = true) →
-    (g.map cellToDict).mapM readCell = some (g.map fun c => { typed c with md := {} })
+theorem mapM_readCellS_cellToDict : ∀ g : List JCell, (∀ c ∈ g, wfCell c = true) →
+    (g.map cellToDict).mapM readCellS = some (g.map fun c => { typed c with md := {} })
   | [], _ => rfl
   | a :: t, h => by
     rw [List.map_cons, List.mapM_cons]
-    simp [readCell_cellToDict a (h a List.mem_cons_self),
-      mapM_readCell_cellToDict t (fun c hc => h c (List.mem_cons_of_mem _ hc))]
+    simp [readCellS_cellToDict a (h a List.mem_cons_self),
+      mapM_readCellS_cellToDict t (fun c hc => h c (List.mem_cons_of_mem _ hc))]
 
 /-- a written slice, read plainly, is the slice's cells (typed), each with the slice's metadata -/
-theorem readSlice_sliceToDict (g : List JCell) (m : JMeta) (hne : g ≠ [])
+theorem readSliceS_sliceToDict (g : List JCell) (m : JMeta) (hne : g ≠ [])
     (hwf : ∀ c ∈ g, wfCell c = true) (hmd : ∀ c ∈ g, c.md = m) :
-    readSlice (sliceToDict g) = some (asTyped g) := by
+    readSliceS (sliceToDict g) = some (asTyped g) := by
   cases g with
   | nil => exact absurd rfl hne
   | cons c0 rest =>
@@ -281,12 +284,12 @@ theorem readSlice_sliceToDict (g : List JCell) (m : JMeta) (hne : g ≠ [])
     rw [hshape]
     obtain ⟨s1, s2, s3, s4, s5⟩ := readStrAttr_slice m (.arr ((c0 :: rest).map cellToDict))
     obtain ⟨d1, d2⟩ := readDetails_slice m (.arr ((c0 :: rest).map cellToDict)) hd1 hd2
-    have hc : readCells (sliceKvs m (.arr ((c0 :: rest).map cellToDict))) =
+    have hc : readCellsS (sliceKvs m (.arr ((c0 :: rest).map cellToDict))) =
         some ((c0 :: rest).map fun c => { typed c with md := {} }) := by
-      unfold readCells
+      unfold readCellsS
       rw [(lookup_details m _).2.2]
-      exact mapM_readCell_cellToDict (c0 :: rest) hwf
-    simp only [readSlice, sliceKvs_keys_ok, if_true, s1, s2, s3, s4, s5 hrb, readLimit_slice m _ hlim, d1, d2, hc,
+      exact mapM_readCellS_cellToDict (c0 :: rest) hwf
+    simp only [readSliceS, sliceKvs_keys_ok, if_true, s1, s2, s3, s4, s5 hrb, readLimit_slice m _ hlim, d1, d2, hc,
       Option.bind_some, Option.map_some, Option.some.injEq]
     rw [asTyped_eq_map, List.map_map]
     apply List.map_congr_left
@@ -361,24 +364,50 @@ theorem sorted_contig (t : List JCell) (hs : t.Pairwise (fun a b => JCell.le a b
     rw [← hx]; exact hxa
 
 
-theorem mapM_readSlice_groups : ∀ (L : List (List JCell)),
-    (∀ g ∈ L, readSlice (sliceToDict g) = some (asTyped g)) →
-    (L.map sliceToDict).mapM readSlice = some (L.map asTyped)
+theorem mapM_readSliceS_groups : ∀ (L : List (List JCell)),
+    (∀ g ∈ L, readSliceS (sliceToDict g) = some (asTyped g)) →
+    (L.map sliceToDict).mapM readSliceS = some (L.map asTyped)
   | [], _ => rfl
   | g :: rest, h => by
     rw [List.map_cons, List.mapM_cons]
-    simp [h g List.mem_cons_self, mapM_readSlice_groups rest (fun x hx => h x (List.mem_cons_of_mem _ hx))]
+    simp [h g List.mem_cons_self, mapM_readSliceS_groups rest (fun x hx => h x (List.mem_cons_of_mem _ hx))]
 
 theorem plainRead_slices (ss : List JVal) :
     plainRead (.obj [("slices", .arr ss)]) = (ss.mapM readSlice).map List.flatten := by
   simp [plainRead]
 
-/-- **toDict_shape.** The written document, read by a plain reader that knows nothing of the
-library's hook, is the original triangle: every slice's metadata once (defaults and `None`
-omitted, `risk_basis` present), the cells in order with ISO dates, `prev_evaluation_date` exactly
-on incremental cells, values with their kinds. -/
-theorem toDict_shape (t : List JCell) (h : WFjson t = true) :
-    plainRead (toDict t) = some (asTyped t) := by
+theorem plainReadStrict_slices (ss : List JVal) :
+    plainReadStrict (.obj [("slices", .arr ss)]) = (ss.mapM readSliceS).map List.flatten := by
+  simp [plainReadStrict]
+
+/-- a sorted well-formed triangle's slices are the contiguous runs `groupBy` finds (no re-sorting
+happens) -/
+theorem slicesOf_eq_groups (t : List JCell) (h : WFjson t = true) :
+    slicesOf t = (groupBy (fun c : JCell => c.md.toMetadata) t).map (·.2) := by
+  simp only [WFjson, Bool.and_eq_true] at h
+  obtain ⟨⟨⟨hcells, _⟩, hs⟩, _⟩ := h
+  have hwf : ∀ c ∈ t, wfCell c = true := List.all_eq_true.mp hcells
+  have hwm : ∀ c ∈ t, wfMeta c.md = true := by
+    intro c hc
+    have := hwf c hc
+    simp only [wfCell, Bool.and_eq_true] at this
+    exact this.2
+  have hp := pairwise_of_sortedJ t hs
+  have inv := groupBy_contiguous (fun c : JCell => c.md.toMetadata) t (sorted_contig t hp hwm)
+  unfold slicesOf
+  apply List.map_congr_left
+  intro g hg
+  apply List.mergeSort_of_pairwise
+  have := hp
+  rw [← inv.flat, List.pairwise_flatten] at this
+  exact this.1 g.2 (List.mem_map_of_mem hg)
+
+/-- **toDict_shape (strict).** The written document, read by a plain reader that knows nothing of
+the library's hook and accepts a date only as `YYYY-MM-DD`, is the original triangle: every slice's
+metadata once (defaults and `None` omitted, `risk_basis` present), the cells in order with ISO
+dates, `prev_evaluation_date` exactly on incremental cells, values with their kinds. -/
+theorem toDict_shape_strict (t : List JCell) (h : WFjson t = true) :
+    plainReadStrict (toDict t) = some (asTyped t) := by
   simp only [WFjson, Bool.and_eq_true] at h
   obtain ⟨⟨⟨hcells, _⟩, hs⟩, hco⟩ := h
   have hwf : ∀ c ∈ t, wfCell c = true := List.all_eq_true.mp hcells
@@ -406,12 +435,12 @@ theorem toDict_shape (t : List JCell) (h : WFjson t = true) :
     rw [← inv.flat]
     exact List.mem_flatten.mpr ⟨g.2, List.mem_map_of_mem hg, hc⟩
   have hgroup : ∀ g ∈ (groupBy (fun c : JCell => c.md.toMetadata) t).map (·.2),
-      readSlice (sliceToDict g) = some (asTyped g) := by
+      readSliceS (sliceToDict g) = some (asTyped g) := by
     intro g hg
     obtain ⟨p, hp', rfl⟩ := List.mem_map.mp hg
     obtain ⟨hne, hkey⟩ := inv.mem p hp'
     obtain ⟨c0, hc0⟩ := List.exists_mem_of_ne_nil _ hne
-    apply readSlice_sliceToDict p.2 c0.md hne (fun c hc => hwf c (hmem p hp' c hc))
+    apply readSliceS_sliceToDict p.2 c0.md hne (fun c hc => hwf c (hmem p hp' c hc))
     intro c hc
     have hk : c.md.toMetadata = c0.md.toMetadata := by rw [hkey c hc, hkey c0 hc0]
     have := List.all_eq_true.mp (List.all_eq_true.mp hco c (hmem p hp' c hc)) c0 (hmem p hp' c0 hc0)
@@ -420,11 +449,36 @@ theorem toDict_shape (t : List JCell) (h : WFjson t = true) :
     · exact absurd hk h1
     · exact h1
   unfold toDict
-  rw [plainRead_slices, hsl, mapM_readSlice_groups _ hgroup]
+  rw [plainReadStrict_slices, hsl, mapM_readSliceS_groups _ hgroup]
   simp only [Option.map_some, Option.some.injEq]
   have hf : ((groupBy (fun c : JCell => c.md.toMetadata) t).map (·.2)).flatten = t := inv.flat
   conv => rhs; rw [← hf]
   simp only [asTyped_eq_map, List.map_flatten, List.map_map]
   rfl
+
+/-- **toDict_shape.** The same for the lenient plain reader (dates by `strptime`'s rules), the one
+whose domain `fromDict_plain` quantifies over. -/
+theorem toDict_shape (t : List JCell) (h : WFjson t = true) :
+    plainRead (toDict t) = some (asTyped t) :=
+  plainRead_of_strict (toDict_shape_strict t h)
+
+/-! ### staging lemmas for concrete witnesses (`decide` cannot run `mergeSort` on ≥ 2 elements) -/
+
+/-- `Triangle(cells)` leaves an already sorted one-class list alone -/
+theorem ofJCells_sorted (cells : List JCell) (hk : kindsConsistent (cells.map JCell.toCell) = true)
+    (hs : sortedJ cells = true) : ofJCells cells = .ok cells := by
+  unfold ofJCells
+  rw [if_pos hk, List.mergeSort_of_pairwise (pairwise_of_sortedJ cells hs)]
+
+/-- when every metadata group is already sorted, the slices are the groups -/
+theorem slicesOf_of_sorted_groups (t : List JCell)
+    (h : ((groupBy (fun c : JCell => c.md.toMetadata) t).all fun g => sortedJ g.2) = true) :
+    slicesOf t = (groupBy (fun c : JCell => c.md.toMetadata) t).map (·.2) := by
+  unfold slicesOf
+  apply List.map_congr_left
+  intro g hg
+  exact List.mergeSort_of_pairwise (pairwise_of_sortedJ _ (List.all_eq_true.mp h g hg))
+
+theorem sameCells_refl (a : List JCell) : sameCells a a = true := by simp [sameCells]
 
 end Bermuda.JsonIO
